@@ -98,7 +98,9 @@ check("C11", "Same monitor: every refresh query must be explained by an unused 8
       "Component level: Cache.tla models DnsCache and the DnsRecord lifetime arithmetic operation by operation; MCCache proves that it refines Heard.tla "
       "(a record never outlives, nor is cut short of, the lifetime the statements give it; goodbye, cache-flush, verify) with three negative controls; "
       "26 880 TLC-enumerated operation sequences and random ones are replayed on the real cache and TraceCache.tla compares every result and the "
-      "complete content (TTL, creation, expiry, refresh mark of every record) after every operation.",
+      "complete content (TTL, creation, expiry, refresh mark of every record) after every operation. LifeProofs.tla: the lifetime arithmetic "
+      "(marks ordered, once per mark, never after expiry, flush and verify only shorten, restart at the first mark) proved with TLAPS for every TTL "
+      "and instant over the operators Cache.tla is built from.",
       Q_NOTE, Q_TECH, "DESIGN.md section 7 C11")
 check("C13", "Same monitor: per-channel protocol automaton (first event SearchStarted, ServiceFound before ServiceResolved, exactly the owed SearchStopped "
       "in the iteration of stop / timeout / shutdown and nothing after it, cache-only browse never queries), no query for a stopped type or host "
@@ -123,7 +125,9 @@ check("C12", "Both trace monitors derive from the API / packet history the set o
       "of the real daemon, that the wake-up it asks its poller for is not later than the earliest of them (C12.cover), and that it never runs 30 idle "
       "iterations in a row each asking to be woken within 1 ms (C12.nospin); exercised under policy W (woken only when it asks) on the 'silent' family "
       "over horizons up to hours and with every interface-check setting, and at every park of the respond, browse, browsew, resolve, resolvew and conflict "
-      "families (the latter: within a second of a competing probe, won or lost).",
+      "families (the latter: within a second of a competing probe, won or lost). Mechanism level: the loop publishes its timer heap and queued "
+      "re-runs when it parks (hook); the wake-up must be exactly the earliest timer (C12.loop-wake) and every queued re-run must have a timer of "
+      "its own (C12.loop-cover).",
       Q_NOTE + " Work the daemon forgets to do even when woken is reported by the property that owns that work.", Q_TECH, "DESIGN.md section 7 C12")
 
 check("C08", "Three legs. (a) Compare.tla (class, type, RDATA, count) is model-checked for opposite verdicts and every enumerated pair of record lists is "
@@ -215,7 +219,8 @@ def generate():
             {"name": "tla-trace", "path": "/verif/check", "serves_properties": sorted(CHECKS),
              "kind_free_text": "explicit TLA+ specifications (spec/*.tla) model-checked by TLC, bound to the implementation by "
                                "TLC trace validation of executions of the real code recorded by a Rust harness "
-                               "(harness/, simulation layer src/verif.rs) and by replay of TLC-generated cases"},
+                               "(harness/, simulation layer src/verif.rs) and by replay of TLC-generated cases; one module "
+                               "(spec/LifeProofs.tla, C11) is proved with the TLA+ proof system (tlapm) for unbounded TTLs"},
         ],
         "checks": checks,
         "not_applicable": na,
